@@ -351,3 +351,46 @@ def gen_c12_async_retry(rng):
     if rng.random() < 0.3:
         sc["preempt_pct"] = 25
     return sc
+
+
+def gen_c03_overlap(rng):
+    """Directed: two resting bets X and Y; the cancel of X comes back with its report missing (or is a plain success); later
+    two requests are in flight at once - a replace / update / cancel of X and a cancel of Y, sent as separate packages in the
+    same handler - so that the reply to one package is processed while the other order's request is outstanding."""
+    knobs = {"n_updates": (9, 11), "p_removal": 0.0, "p_suspend": 0.0, "p_inplay": 0.0, "p_close": 0.0, "n_runners": (2, 3), "spacing": "normal"}
+    m = marketgen.gen_market(rng, 0, knobs)
+    places = []
+    for k in range(2):
+        side = "BACK" if k % 2 == 0 else "LAY"
+        places.append({"op": "place", "sel": m["runners"][k % len(m["runners"])], "side": side, "type": "LIMIT", "price": 900.0 if side == "BACK" else 1.02, "size": r2(rng.choice([2.0, 3.0, 4.5])), "persistence": "LAPSE"})
+    m["updates"][1]["acts"] = {"L0": [{"op": "txn", "acts": places}]}
+    j = rng.choice([0, 1])  # the order whose cancel report goes missing
+    m["updates"][3]["acts"] = {"L0": [{"op": "txn", "acts": [{"op": "cancel", "order": 0, "red": rng.choice([0.5, 1.0])}, {"op": "cancel", "order": 1, "red": 0.5}]}]}
+    first = rng.choice([{"op": "replace", "order": j, "price": 850.0 if j == 0 else 1.05}, {"op": "update", "order": j, "pt": "PERSIST"}, {"op": "cancel", "order": j, "red": 0.5}])
+    both = [first, {"op": "cancel", "order": 1 - j, "red": 0.5}]
+    if rng.random() < 0.5:
+        both.reverse()
+    m["updates"][5]["acts"] = {"L0": both}
+    m["updates"][6]["acts"] = {"L0": [{"op": rng.choice(["cancel", "replace"]), "order": j, "price": 800.0 if j == 0 else 1.06}]}
+    m["updates"][7]["acts"] = {"L0": [{"op": "cancel", "order": 0}, {"op": "cancel", "order": 1}]}
+    faults = {}
+    if rng.random() < 0.7:
+        faults["2"] = {"omit": [j]}  # (the exchange double only drops a report from a reply that carries several)
+    sc = {
+        "world": "B",
+        "cfg": {"async": False, "max_workers": 32},
+        "clients": [{"limit": 5000}],
+        "markets": [m],
+        "strategies": [{"name": "L0", "markets": [0], "client": 0}],
+        "tape": [rng.randrange(1_000_000) for _ in range(100)],
+        "duplicates": rng.random() < 0.3,
+        "idle_ticks": False,
+        "image_with_complete": True,
+        "max_steps": 600,
+        "faults": faults,
+        "exchange_events": [],
+        "directed": "report-missing-then-two-requests-in-flight",
+    }
+    if rng.random() < 0.3:
+        sc["split_ocm"] = True
+    return sc
